@@ -477,7 +477,7 @@ func (g *cacheGen) dataPath(target string, glob bool) (*pathDesc, pathDesc) {
 			e.Name = "*"
 		} else if r.Intn(5) == 0 {
 			e.Name = "l"
-			e.Keys = map[string]string{"k1": []string{"x", "y"}[r.Intn(2)]}
+			e.Keys = map[string]string{"k1": []string{"x", "y", "x/y"}[r.Intn(3)]} // a key value may contain the path separator
 			if r.Intn(2) == 0 {
 				e.Keys["k0"] = []string{"x", "y"}[r.Intn(2)]
 			}
